@@ -61,6 +61,28 @@ def check_triple(est, L, x, y, z, m):
   return None
 
 
+def check_mixed(est, d, rng):
+  """query points given in different (exactly convertible) representations: integer ndarray, python list of ints, float32, float64.
+  All coordinates are multiples of 1/4 (exact in every one of them), so d(u, v) must not depend on which argument has which dtype:
+  exact symmetry, and the same value as with both arguments in float64"""
+  xi = rng.randint(-8, 9, size=d)                       # integers
+  yf = rng.randint(-32, 33, size=d) / 4.0               # quarters (float64)
+  forms = [('int64 ndarray', xi.astype(np.int64)), ('int32 ndarray', xi.astype(np.int32)), ('list of ints', [int(v) for v in xi]),
+           ('float32 ndarray', xi.astype(np.float32))]
+  f = est.get_metric()
+  with np.errstate(all='ignore'):
+    ref = f(xi.astype(float), yf)
+    for name, u in forms:
+      for a, b, order in ((u, yf, '(%s, float64)' % name), (yf, u, '(float64, %s)' % name)):
+        for sq in (False, True):
+          got = f(a, b, squared=sq)
+          want = ref ** 2 if sq else ref
+          if not (np.isfinite(got) and abs(got - want) <= 1e-12 * max(1.0, abs(want))):
+            return TAG_MF, 'get_metric()%s%s = %r but both points in float64 give %r' % (order, ' squared' if sq else '', got, want), \
+                dict(u=np.asarray(xi).tolist(), v=yf.tolist(), representation=order)
+  return None
+
+
 def cases(tier, seed):
   ml = repo()
   rng = np.random.RandomState(seed)
@@ -81,6 +103,20 @@ def cases(tier, seed):
                           input=dict(estimator=cls, components_=L.tolist(), x=x.tolist(), y=y.tolist(), z=z.tolist()))
             return None
           yield '%s L=%s |x|~%g' % (cls, lname, m), (TAG_PD, TAG_PS, TAG_MF), thunk
+        sub = np.random.RandomState(rng.randint(2 ** 31 - 1))
+
+        def thunk_mixed(est=est, L=L, d=d, sub=sub, cls=cls):
+          st_ = sub.get_state()
+          try:
+            bad = check_mixed(est, d, sub)
+          except Exception as e:
+            bad = (TAG_MF, '%s: %s' % (type(e).__name__, e), {})
+          finally:
+            sub.set_state(st_)
+          if bad:
+            return dict(tag=bad[0], observed=bad[1], input=dict(estimator=cls, components_=L.tolist(), **bad[2]))
+          return None
+        yield '%s L=%s mixed argument dtypes' % (cls, lname), (TAG_MF,), thunk_mixed
 
 
 def run(tier, seed):
